@@ -1306,8 +1306,11 @@ def fam_tls(rng, n, dist):
             if df is None and kind in ("D", "U") and rng.random() < 0.25:
                 # a transfer cancelled by the callback: ABOR and what follows travel inside TLS like everything else
                 big = [bytes([65 + j % 26]) * 8192 for j in range(4)]
-                b.transfer(kind, b"big.bin", payload_segs=big + [b"z" * 200000], chunks=big * 3,
-                           cb=[False] * rng.choice([1, 2, 3]) + [True] * 6, abor=dict(first=426, second=226))
+                ci = b.transfer(kind, b"big.bin", payload_segs=big + [b"z" * 200000], chunks=big * 3,
+                                cb=[False] * rng.choice([1, 2, 3]) + [True] * 6, abor=dict(first=426, second=226))
+                # (the server drops the data connection when it reads ABOR: the TLS shutdown of the abandoned data
+                # connection cannot complete, which the call reports - after ABOR and its replies have been exchanged)
+                b.exp[ci]["throws"] = True
                 dist.add("tls:cancelled-transfer")
                 continue
             b.transfer(kind, b"f" if kind != "F" else None, payload_segs=payload, chunks=payload,
